@@ -104,3 +104,69 @@ func Signature(ps []Problem) string {
 	sort.Strings(l)
 	return strings.Join(l, ",")
 }
+
+// CheckDelivery evaluates C04's delivery clauses on the recorded traffic:
+// every successful non-snapshot pull returns exactly the log rows of other
+// actors in (request checkpoint, response checkpoint], in order; a push-only
+// call returns nothing; response checkpoints never exceed the log head and
+// never go back within one attachment.
+func CheckDelivery(r *Run) []Problem {
+	var ps []Problem
+	log := r.Out.Log
+	head := int64(len(log))
+	lastCp := map[string]int64{}
+	sessionStart := map[string]int64{} // log head when the current attachment was established
+	for i, t := range r.Trace {
+		if t.Req == nil || t.Err != nil || t.Resp == nil {
+			continue
+		}
+		me := t.Client.String()
+		reqS := t.Req.Checkpoint.ServerSeq
+		respS := t.Resp.Checkpoint.ServerSeq
+		if t.Kind == "attach" {
+			lastCp[me] = 0
+			sessionStart[me] = respS
+		}
+		if respS > head {
+			ps = append(ps, Problem{Kind: "checkpoint-beyond-head", Step: i, Detail: fmt.Sprintf("call %d (%s): response checkpoint %d, log head %d", i, t.Kind, respS, head)})
+		}
+		if respS < lastCp[me] && t.Kind == "sync" && !t.PushOnly {
+			ps = append(ps, Problem{Kind: "checkpoint-went-back", Step: i, Detail: fmt.Sprintf("call %d: %d after %d", i, respS, lastCp[me])})
+		}
+		if respS > lastCp[me] {
+			lastCp[me] = respS
+		}
+		if len(t.Resp.Snapshot) > 0 {
+			continue
+		}
+		// rows of other actors must be delivered exactly; own rows stored during the
+		// current attachment must never come back (echo); own rows of an earlier
+		// attachment of the same client are needed by its fresh document and are
+		// not judged here.
+		var got []int64
+		for _, c := range t.Resp.Changes {
+			if c.ID().ActorID().String() == me {
+				if c.ServerSeq() > sessionStart[me] {
+					ps = append(ps, Problem{Kind: "echo", Step: i, Detail: fmt.Sprintf("call %d (%s) by %s returned its own change serverSeq %d clientSeq %d made in the current attachment", i, t.Kind, me, c.ServerSeq(), c.ClientSeq())})
+				}
+				continue
+			}
+			got = append(got, c.ServerSeq())
+		}
+		var want []int64
+		if !t.PushOnly {
+			for _, row := range log {
+				if row.ServerSeq > reqS && row.ServerSeq <= respS && row.Actor != me {
+					if r.FirstNoPresence && row.NOps == 0 {
+						continue
+					}
+					want = append(want, row.ServerSeq)
+				}
+			}
+		}
+		if fmt.Sprint(got) != fmt.Sprint(want) {
+			ps = append(ps, Problem{Kind: "delivery-mismatch", Step: i, Detail: fmt.Sprintf("call %d (%s) by %s: req cp %d resp cp %d delivered %v, log says %v", i, t.Kind, me, reqS, respS, got, want)})
+		}
+	}
+	return ps
+}
